@@ -67,9 +67,10 @@ def make_report(rng, family=None):
 
 
 def _one(args):
-    logging.disable(logging.CRITICAL)
     from . import serial_rec
+    from .common import set_logging
     plan, mode = (args["plan"], args["mode"]) if isinstance(args, dict) else (args, "serial")
+    set_logging(isinstance(args, dict) and bool(args.get("verbose")))
     stmts = [b"M114\n"] * len(plan)
     acks = [bytes(p["ack"][0]) if p["ack"] else b"ok\n" for p in plan]
     status = {k + 1: [bytes(x[0]) for x in p["status"]] for k, p in enumerate(plan) if p["status"]}
@@ -86,7 +87,7 @@ def _one(args):
                 rep = p["ack"][1]
                 ev.append({"k": "report", "toks": rep["toks"], "grbl": rep["grbl"], "ok": rep["ok"], "readings": _none()})
             ev.append({"k": "check", "toks": [], "grbl": False, "ok": False, "readings": e["readings"], "res": e["res"]})
-    return {"meta": {"mode": mode, "lines": [[bytes(x[0]).decode() for x in p["status"]] + ([bytes(p["ack"][0]).decode()] if p["ack"] else ["ok"]) for p in plan]},
+    return {"meta": {"mode": mode, "verbose": isinstance(args, dict) and bool(args.get("verbose")), "lines": [[bytes(x[0]).decode() for x in p["status"]] + ([bytes(p["ack"][0]).decode()] if p["ack"] else ["ok"]) for p in plan]},
             "ev": ev}
 
 
@@ -138,7 +139,8 @@ class P(flow.Plan):
         plans = []
         for i in range(n):
             rng = random.Random(sd * 4099 + i)
-            plans.append({"plan": make_plan(rng, rng.randint(1, 5)), "mode": "socket" if i % 2 else "serial"})
+            # every third execution runs with DEBUG logging enabled process-wide (added after seed C18g)
+            plans.append({"plan": make_plan(rng, rng.randint(1, 5)), "mode": "socket" if i % 2 else "serial", "verbose": i % 3 == 2})
         traces = flow.pool_map(_one, plans, 12)
         return traces, plans
 
